@@ -148,9 +148,9 @@ def check(prop, tier, only=None, extra_checks=None):
                 try:
                     rec = f.result()
                 except Exception as e:
-                    rec = dict(id=i.id, status="broken", failures=[], known=[], notes=["driver exception: " + traceback.format_exc()[-600:].replace("\n"," | ")], queries=0, solver_s=0.0)
+                    rec = dict(id=i.id, status="broken", failures=[], known=[], notes=["driver exception: " + traceback.format_exc()[-700:].replace("\n"," | ")], queries=0, solver_s=0.0)
                 recs.append(rec)
-                say("  [%s] %-40s %s %s fail=%d known=%d %.1fs %s" % (prop, rec["id"], rec["status"], rec.get("backend"), len(rec["failures"]), len(rec["known"]), rec.get("wall_s", 0), "; ".join(rec["notes"])[:300]))
+                say("  [%s] %-40s %s %s fail=%d known=%d %.1fs %s" % (prop, rec["id"], rec["status"], rec.get("backend"), len(rec["failures"]), len(rec["known"]), rec.get("wall_s", 0), "; ".join(rec["notes"])[-600:]))
     extra = []
     if extra_checks and not errs:
         for fn in extra_checks:
